@@ -9,6 +9,7 @@ from .symx import SymExec, Opaque, CondExpr, Constraint, Ineq, rat
 CONSTRAINT = "wntr/sim/models/constraint.py"
 PARAM = "wntr/sim/models/param.py"
 CONSTANTS = "wntr/sim/models/constants.py"
+VAR = "wntr/sim/models/var.py"
 SPLINE = "wntr/utils/polynomial_interpolation.py"
 
 POSITIVE = {"hw_resistance", "hw_exp", "hw_minor_exp", "hw_k", "hw_m", "hw_q1", "hw_q2", "pdd_slope", "leak_slope", "pdd_smoothing_delta",
@@ -223,3 +224,38 @@ def check_updaters(chk, rule, fn, bname, paths, required, loc_):
                         "control actions report the public attribute name to the change tracker; a private name is never notified", found=a)
                 ok_all = False
     return ok_all
+
+
+def check_loop_independence(repo, chk, rule, targets, what):
+    """Side condition of the one-symbolic-iteration extraction (run_builder interprets the element loop of a builder once, for a symbolic element):
+    in every outermost `for` loop of each target function no local is read that was assigned in the SAME iteration on some paths and not on others
+    (sa/loopcarry.py).  Such a read makes the entry built for one element depend on what an earlier element of the loop left behind -- the entry
+    is then not a function of its own element, which no single-iteration formula can show.  Accumulators / counters (read before any assignment of
+    the iteration on every path) are outside the rule; they are visible to the formula extraction itself."""
+    import ast
+    from . import loopcarry as lc
+    from .src import loc
+    nloops = 0
+    for rel, qual in targets:
+        fn = repo.func(rel, qual)
+        chk.fn(fn)
+        inner = set()
+        loops = lc.loops_of(fn)
+        for lp in loops:
+            for sub in ast.walk(lp):
+                if sub is not lp and isinstance(sub, (ast.For, ast.While)):
+                    inner.add(id(sub))
+        for lp in loops:
+            if id(lp) in inner or not isinstance(lp, ast.For):
+                continue
+            nloops += 1
+            try:
+                mixed, carried, names = lc.analyse_loop(lp)
+            except NotImplementedError as e:
+                raise ExtractError("%s: loop at line %d: %s" % (qual, lp.lineno, e))
+            tgt = ast.unparse(lp.target)
+            chk.expect(not mixed, rule, "%s: what is built for one %s does not depend on the other elements of the loop (for %s in %s)" % (qual, what, tgt, ast.unparse(lp.iter)[:60]),
+                       loc(fn), "every local read in the loop body is either assigned earlier in the same iteration on every path, or on none (a deliberate carry); "
+                       "a local assigned on some paths only keeps, for the other elements, the value an earlier element left behind",
+                       expected="no partially assigned local is read", found=["%s read at line %d" % (nm, n.lineno) for nm, n in mixed[:6]] or None)
+    return nloops
